@@ -446,6 +446,14 @@ def _pick_some(rs, n_pool, max_n):
     return rs.sample(range(n_pool), k)
 
 
+def _pick_tags(rs, n_pool, max_n):
+    """Like _pick_some, but a list may mention the same tag twice."""
+    picked = _pick_some(rs, n_pool, max_n)
+    if picked and rs.random() < 0.1:
+        picked.insert(rs.randrange(len(picked) + 1), rs.choice(picked))
+    return picked
+
+
 def gen_time(rv, cfg, hi=100.0) -> float:
     return gen_float(rv, cfg, 0.0, hi)
 
@@ -606,7 +614,7 @@ def gen_world(struct_seed, value_seed, cfg) -> dict:
         if _maybe(rv, cfg):
             r["rights"] = gen_str(rv, cfg)
         r["owners"] = _pick_some(rs, nu, 2)
-        r["tags"] = _pick_some(rs, nt, 3)
+        r["tags"] = _pick_tags(rs, nt, 3)
         r["features"] = gen_features(rv, cfg)
         r["notes"] = gen_notes(rs, rv, cfg, nu)
         recordings.append(r)
@@ -658,7 +666,7 @@ def gen_world(struct_seed, value_seed, cfg) -> dict:
 
     def annotation_common():
         out = {
-            "tags": _pick_some(rs, nt, 3),
+            "tags": _pick_tags(rs, nt, 3),
             "notes": gen_notes(rs, rv, cfg, nu),
             "created_by": (
                 rs.randrange(nu) if nu and rs.random() < 0.5 else None
@@ -711,7 +719,7 @@ def gen_world(struct_seed, value_seed, cfg) -> dict:
                     "clip": ci,
                     "sound_events": own_se,
                     "sequences": own_seq,
-                    "tags": _pick_some(rs, nt, 3),
+                    "tags": _pick_tags(rs, nt, 3),
                     "notes": gen_notes(rs, rv, cfg, nu),
                     "created_on": gen_datetime(rv, cfg),
                 }
